@@ -258,8 +258,16 @@ def run_case(rng, idx, tier):
         if bool(r12[0]) != bool(r21[0]):
             pol = np.asarray((r12 if r12[0] else r21)[1][1], float)
             pp = bool(len(pol) > 0 and np.abs(pol - pol[0]).max() <= 1e-12)   # the one 'polygon' is a single point (K9)
-            viol.append({"key": dict(ks, kind="order-dependent-flag", point_polygon=pp), "err": None,
-                         "msg": "intersect_tetrahedron_pair: %s for (t1,t2) but %s for (t2,t1): t1=%s t2=%s" % (r12[0], r21[0], t1.tolist(), t2.tolist())})
+            # a polygon without area (tetrahedra that only touch along a segment: cross-sections on opposite sides of a
+            # shared edge) is the same contact as no polygon: either flag is right. Point polygons stay reported (K9).
+            area = 0.0
+            if len(pol) >= 3:
+                area = 0.5 * float(np.linalg.norm(sum(np.cross(pol[i] - pol[0], pol[i + 1] - pol[0]) for i in range(1, len(pol) - 1))))
+            if not pp and area <= 1e-12:
+                ev["order_dependent_flag_zero_area"] = ev.get("order_dependent_flag_zero_area", 0) + 1
+            else:
+                viol.append({"key": dict(ks, kind="order-dependent-flag", point_polygon=pp), "err": None,
+                         "msg": "intersect_tetrahedron_pair: %s for (t1,t2) but %s for (t2,t1): t1=%s t2=%s e1=%s e2=%s polygon=%s" % (r12[0], r21[0], t1.tolist(), t2.tolist(), e1.tolist(), e2.tolist(), np.round(pol, 12).tolist())})
         for (hit, info), (ta, tb), tag in ((r12, (t1, t2), "(t1,t2)"), (r21, (t2, t1), "(t2,t1)")):
             if hit:
                 plane, poly = info
